@@ -47,7 +47,7 @@ func init() {
 	}})
 }
 
-var p2FixedScenarios = []string{"rmdir", "zero-pivot-255", "zero-pivot-255-b", "insert-at-boundary", "swap-files", "append-garbage", "lost-trailing-zeros", "k0-no-volumes", "damage-no-volumes", "periodic-J"}
+var p2FixedScenarios = []string{"rmdir", "zero-pivot-255", "zero-pivot-255-b", "insert-at-boundary", "swap-files", "append-garbage", "lost-trailing-zeros", "k0-no-volumes", "damage-no-volumes", "periodic-J", "blocks-40000", "copy-survives"}
 
 func p2Cases(id, tier string, seed int64, n int) []core.Case {
 	var cs []core.Case
@@ -167,6 +167,22 @@ func fixedSet(name string) (scen.Set, func(*scen.State, *rand.Rand) []scen.Op, s
 				{Kind: "overwrite", A: 0, Pos: 4 * third, G: []byte{9, 10, 11, 12}},
 			}
 		}, "keep-0-255-256"
+	case "blocks-40000":
+		// more recovery blocks than there can be slices (exponents up to 39999);
+		// only the highest-numbered recovery file survives
+		s := scen.Set{SliceSize: 4, Blocks: 40000, Content: "random", Files: []scen.File{{Name: "tiny.bin", Data: scen.GenData(rng, "random", 11, 4)}}}
+		return s, func(st *scen.State, r *rand.Rand) []scen.Op {
+			return []scen.Op{{Kind: "overwrite", A: 0, Pos: 5, G: []byte{0x7f}}}
+		}, "keep-highest"
+	case "copy-survives":
+		// c.bin is an exact copy of a.bin: when a.bin is deleted its slices live
+		// on in the (completely intact) copy and no recovery block is needed
+		s := scen.Set{SliceSize: 16, Blocks: 2, Content: "random", Files: []scen.File{
+			{Name: "a.bin", Data: append([]byte(nil), two.Files[0].Data...)},
+			{Name: "b.bin", Data: append([]byte(nil), two.Files[1].Data...)},
+			{Name: "c.bin", Data: append([]byte(nil), two.Files[0].Data...)},
+		}}
+		return s, func(st *scen.State, r *rand.Rand) []scen.Op { return []scen.Op{{Kind: "delete", A: 0}} }, "none"
 	case "rmdir":
 		s := scen.Set{SliceSize: 8, Blocks: 6, Content: "random", Files: []scen.File{
 			{Name: "a.bin", Data: scen.GenData(rng, "random", 24, 8)},
@@ -304,6 +320,27 @@ func buildP2Scenario(r *core.R, p p2ScenParams) *p2Scenario {
 			os.Remove(v)
 			sc.volsLost++
 		}
+	case volMode == "keep-highest":
+		// file names sort by first exponent only up to two digits: pick the
+		// file holding the largest exponent by reading them
+		best, bestExp := "", -1
+		for _, v := range vols {
+			if b, err := os.ReadFile(v); err == nil {
+				for _, pk := range par2rw.ParseLenient(b) {
+					if pk.Type == par2rw.TypeRecv {
+						if rv, err := par2rw.DecodeRecv(pk.Body); err == nil && int(rv.Exp) > bestExp {
+							bestExp, best = int(rv.Exp), v
+						}
+					}
+				}
+			}
+		}
+		for _, v := range vols {
+			if v != best {
+				os.Remove(v)
+				sc.volsLost++
+			}
+		}
 	case p.Kind == "corrupt-volume":
 		if len(vols) > 0 {
 			v := vols[rng.Intn(len(vols))]
@@ -431,7 +468,10 @@ func buildP2Scenario(r *core.R, p p2ScenParams) *p2Scenario {
 			sc.idxSpelled = d + "/../" + filepath.Base(d) + "/" + b
 		}
 	}
-	sc.wit = st.Witnessed()
+	// slices that survive by construction, closed under equal slice content
+	// (an identical slice elsewhere - a copy of the file, a shared header -
+	// keeps a slice alive)
+	sc.wit = st.WitnessedByContent()
 	sc.findable, sc.skip = st.Find()
 	sc.exps = env.availableExponents()
 	sc.total = set.TotalSlices()
